@@ -305,7 +305,10 @@ def judge_c13(case, lines):
             return 'stream ids read back differ'
         if w[12] != len(vd) or (len(vd) and raws[0][w[13]:w[13] + len(vd)] != vd):
             return 'vendor data read back differs'
-    # decoder accepts the result
+    # decoder accepts the result - a message carries at most 65535 payload bytes (16-bit length field): an analog payload of
+    # 65520..65529 data bytes (16-byte header) is a legal object but cannot travel in one message, whatever the implementation
+    if len(raws[0]) > 65535:
+        return None
     ns = [l for l in lines if l.startswith('N ')]
     ks = [D.kparse(l) for l in lines if l.startswith('K ')]
     if not ns or ns[0].split()[1] != '1' or not ks:
